@@ -290,18 +290,25 @@ def run_check(prop: str, spec: dict) -> int:
     obligations = count_obligations(deps)
 
     results = []
-    if model_ok:
-        for suite in spec["suites"]:
-            try:
-                r = suite(seed, tier)
-            except Exception as e:  # infrastructure failure = tie broken
-                r = Result(getattr(suite, "__name__", "suite"))
-                r.error = f"{type(e).__name__}: {e}\n{traceback.format_exc()[-1500:]}"
-            results.append(r)
-            if r.error:
-                failures.append(("suite:" + r.name, r.error))
-            for b in r.bad:
-                failures.append(("disagreement:" + r.name, b))
+    # the suites run even when the model does not build: their direct oracles (the property statement
+    # evaluated on the implementation) do not need it; model evaluation then yields neutral results
+    # and is reported as a broken tie
+    import common as _common
+    os.environ["VERIF_TOLERATE_MODEL"] = "1"
+    for suite in spec["suites"]:
+        _common.MODEL_ERRORS.clear()
+        try:
+            r = suite(seed, tier)
+        except Exception as e:  # infrastructure failure = tie broken
+            r = Result(getattr(suite, "__name__", "suite"))
+            r.error = f"{type(e).__name__}: {e}\n{traceback.format_exc()[-1500:]}"
+        results.append(r)
+        if r.error:
+            failures.append(("suite:" + r.name, r.error))
+        if _common.MODEL_ERRORS and model_ok:
+            failures.append(("model-eval:" + r.name, "; ".join(_common.MODEL_ERRORS)[:2000]))
+        for b in r.bad:
+            failures.append(("disagreement:" + r.name, b))
 
     known = known_findings(prop)
     violations = 0
